@@ -366,6 +366,11 @@ def mix_struct(n):
         add([(n - 8, 8)], 'n', access='r')
     if n >= 16:
         add([(n - 16, 16)], 'i')
+    if n >= 32:
+        add([(n - 32, 32)], 'i')
+    if n >= 64:
+        add([(n - 64, 64)], 'i')            # a signed field as wide as the smaller storage class, ending at bit N-1
+        add([(0, 64)], 'i', access='w')
     k = 'n' if n in NATIVE else 'u'
     add([(0, n)], k)
     if n >= 3:
@@ -636,6 +641,20 @@ def debug_structs(tier):
                 fld.name = nm
                 fsr.append(fld)
             out.append(Struct(n, fsr, debug=True, twin=True, family='DBGRAW', passes=p, keep_names=True))
+    # many fields: every count around the 32/64/128 marks, one field per bit (bool, or a 2-bit integer overlapping its neighbour),
+    # in declaration order and reversed; every field must be listed, in order
+    counts = (17, 32, 33, 34, 64, 65, 66, 100, 128) if tier == 'quick' else (17, 24, 31, 32, 33, 34, 35, 40, 48, 63, 64, 65, 66, 67, 96, 97, 98, 99, 100, 127, 128)
+    for m in counts:
+        for shape in (0, 1):
+            fs = []
+            for j in range(m):
+                if shape == 0 or j % 3 or j + 2 > m:
+                    fs.append(Field([(j, 1)], 'b', family='DBGMANY', access=('r' if j % 5 == 4 else 'rw')))
+                else:
+                    fs.append(Field([(j, 2)], 'u', family='DBGMANY'))
+            if shape == 1:
+                fs.reverse()
+            out.append(Struct(m if shape == 0 else max(m, 128 if m > 64 else 64), fs, debug=True, twin=True, family='DBGMANY', passes=[('alpha', 'alpha')]))
     return out
 
 
